@@ -6,10 +6,10 @@ import ThriftVerif.Gen.UnknownEvolve
 namespace Gen.Unknown
 open Wire Gen Gen.Std Gen.Evolve
 
-/-- generated `Write` of struct `sd` under keep_unknown_fields at one struct level: the union check, the
-known fields, then `_unknownFields.Write`, then STOP -/
+/-- generated `Write` of struct `sd` under keep_unknown_fields at one struct level: the union check
+(`c != 1 && !(c == 0 && len(p._unknownFields) > 0)`), the known fields, then `_unknownFields.Write`, then STOP -/
 def writeStructKU (P : Prog) (sd : StructDef) (fs : List GoVal) (acc : Fields) : Res Bytes :=
-  if sd.kind = 1 && countSet sd.fields fs != 1 then .err else
+  if sd.kind = 1 && countSet sd.fields fs != 1 && !(countSet sd.fields fs == 0 && carrying acc) then .err else
   match toWFields P sd.fields fs with
   | .ok ws => writeFieldsKU (encFields ws) acc
   | .err => .err
@@ -49,8 +49,8 @@ structure Evo (P : Prog) (iOld iNew : Nat) (sdOld sdNew : StructDef) (mask : Lis
   hw : toWFields P sdNew.fields vs = .ok wsN
   hsh : AddedShallow P mask sdNew.fields vs
   hd : depthFields wsN ≤ f
-  hkO : sdOld.kind ≠ 1
-  hkN : sdNew.kind ≠ 1
+  /-- for a union: the new code's Write succeeded, i.e. exactly one member was set -/
+  hcount : (sdOld.kind = 1 ∨ sdNew.kind = 1) → wsN.length = 1
 
 theorem toWFields_length (P : Prog) : ∀ (defs : List FieldDef) (vs : List GoVal) (ws : List (Nat × WVal)),
     toWFields P defs vs = .ok ws → vs.length = defs.length
@@ -136,11 +136,24 @@ theorem unk_append_split (rdTy : Ty → Bytes → Option (GoVal × Bytes)) (defs
   rw [h1, h2]; rfl
 
 theorem write_struct (P : Prog) (i : Nat) (sd : StructDef) (fs : List GoVal) (ws : List (Nat × WVal))
-    (hsd : P.structs[i]? = some sd) (hk : sd.kind ≠ 1) (hw : toWFields P sd.fields fs = .ok ws) :
+    (hsd : P.structs[i]? = some sd) (hk : sd.kind = 1 → countSet sd.fields fs = 1) (hw : toWFields P sd.fields fs = .ok ws) :
     Std.write P i (.strct fs) = .ok (encFields ws ++ [0]) := by
   have : P.struct? i = some sd := hsd
-  simp only [Std.write, toW, this, hk, decide_false, Bool.false_and, hw]
+  have hc : (sd.kind = 1 && countSet sd.fields fs != 1) = false := by
+    by_cases h1 : sd.kind = 1
+    · simp [h1, hk h1]
+    · simp [h1]
+  simp only [Std.write, toW, this, hc, hw]
   rfl
+
+theorem union_ok (sd : StructDef) (fs : List GoVal) (acc : Fields)
+    (h : sd.kind = 1 → countSet sd.fields fs = 1 ∨ (countSet sd.fields fs = 0 ∧ carrying acc = true)) :
+    (sd.kind = 1 && countSet sd.fields fs != 1 && !(countSet sd.fields fs == 0 && carrying acc)) = false := by
+  by_cases h1 : sd.kind = 1
+  · rcases h h1 with h2 | ⟨h2, h3⟩
+    · simp [h1, h2]
+    · simp [h1, h2, h3]
+  · simp [h1]
 
 theorem carrying_enc (us : List (Nat × WVal)) : carrying (encFields us) = !us.isEmpty := by
   cases us with
@@ -169,28 +182,56 @@ theorem Evo.parts {P : Prog} {iOld iNew : Nat} {sdOld sdNew : StructDef} {mask :
 reads it, carries iff an unknown field is present, and writes the common fields followed by the unknown
 ones in arrival order -/
 theorem hopKU_mixed (P : Prog) (hP : SchemaOK P) (hv : P.validateSet = false) (i : Nat) (sd : StructDef)
-    (fs : List GoVal) (ws : List (Nat × WVal)) (f : Nat) (hsd : P.structs[i]? = some sd) (hk : sd.kind ≠ 1)
+    (ms : List (Nat × WVal))
+    (fs : List GoVal) (ws : List (Nat × WVal)) (f : Nat) (hsd : P.structs[i]? = some sd)
+    (hk : sd.kind = 1 → ws.length = 1 ∨ (ws.length = 0 ∧ unk sd.fields ms ≠ []))
     (hwt : WTFields P.structs sd.fields fs) (hw : toWFields P sd.fields fs = .ok ws) (hd : depthFields ws ≤ f)
-    (ms : List (Nat × WVal)) (hm : Mixed sd.fields ws ms) :
+    (hm : Mixed sd.fields ws ms) :
     hopKU P f sd (encFields ms ++ [0]) = some (encFields (ws ++ unk sd.fields ms) ++ [0], !(unk sd.fields ms).isEmpty) := by
   obtain ⟨fs', htw, hread⟩ := readStructKU_mixed P hP hv i sd fs ws f hsd hwt hw hd
   obtain ⟨_, hku, hwf⟩ := hread ms [] hm
+  have hu := union_ok sd fs' (encFields (unk sd.fields ms)) (fun h1 => by
+    obtain ⟨_, _, _, hopt⟩ := hP i sd hsd
+    have hc := countSet_written P sd.fields fs' ws htw (hopt h1)
+    rcases hk h1 with h2 | ⟨h2, h3⟩
+    · exact Or.inl (by omega)
+    · refine Or.inr ⟨by omega, ?_⟩
+      rw [carrying_enc]
+      cases hh : unk sd.fields ms with
+      | nil => exact absurd hh h3
+      | cons a r => rfl)
   have hwr : writeStructKU P sd fs' (encFields (unk sd.fields ms)) = .ok (encFields (ws ++ unk sd.fields ms) ++ [0]) := by
-    simp only [writeStructKU, hk, decide_false, Bool.false_and, htw, writeFieldsKU, write_enc _ hwf, encFields_append]
+    simp only [writeStructKU, hu, htw, writeFieldsKU, write_enc _ hwf, encFields_append]
     rfl
   simp only [hopKU, hku, hwr, carrying_enc]
 
-theorem hopStd_read (P : Prog) (f i : Nat) (sd : StructDef) (bs : Bytes) (fs : List GoVal) (ws : List (Nat × WVal))
-    (hsd : P.structs[i]? = some sd) (hk : sd.kind ≠ 1)
+theorem hopStd_read (P : Prog) (hP : SchemaOK P) (f i : Nat) (sd : StructDef) (bs : Bytes) (fs : List GoVal) (ws : List (Nat × WVal))
+    (hsd : P.structs[i]? = some sd) (hk : sd.kind = 1 → ws.length = 1)
     (hr : readTy P.structs (f + 1) (.struct i) bs = some (.strct fs, [])) (hw : toWFields P sd.fields fs = .ok ws) :
     hopStd P f i bs = some (encFields ws ++ [0]) := by
-  simp only [hopStd, hr, write_struct P i sd fs ws hsd hk hw]
+  have hk' : sd.kind = 1 → countSet sd.fields fs = 1 := fun h1 => by
+    obtain ⟨_, _, _, hopt⟩ := hP i sd hsd
+    have := countSet_written P sd.fields fs ws hw (hopt h1)
+    have := hk h1
+    omega
+  simp only [hopStd, hr, write_struct P i sd fs ws hsd hk' hw]
 
 section
 variable {P : Prog} {iOld iNew : Nat} {sdOld sdNew : StructDef} {mask : List Bool} {vs : List GoVal}
   {wsN : List (Nat × WVal)} {f : Nat}
 
-/-- **keep_roundtrip** (one struct level, struct/exception). New code writes `wsN`; old code generated with
+/-- for a union the single field the new code wrote is either a common one or an added one -/
+theorem union_split (E : Evo P iOld iNew sdOld sdNew mask vs wsN f) {wsO wsA : List (Nat × WVal)}
+    (hperm : (wsO ++ wsA).Perm wsN) : sdOld.kind = 1 → wsO.length = 1 ∨ (wsO.length = 0 ∧ wsA ≠ []) := by
+  intro h1
+  have h := E.hcount (Or.inl h1)
+  have hl := hperm.length_eq
+  simp only [List.length_append] at hl
+  cases wsA with
+  | nil => simp at hl; exact Or.inl (by omega)
+  | cons a r => simp at hl; exact Or.inr ⟨by omega, by simp⟩
+
+/-- **keep_roundtrip** (one struct level; struct, exception or union). New code writes `wsN`; old code generated with
 keep_unknown_fields reads these bytes and writes its object back: the bytes are the common fields `wsO`
 followed by the added fields `wsA` — a permutation of `wsN`, each field's encoding byte-identical —; the
 object reports carrying iff an added field was on the wire; and the NEW code reads the re-written bytes
@@ -203,13 +244,13 @@ theorem keep_roundtrip_core (E : Evo P iOld iNew sdOld sdNew mask vs wsN f) :
       (∀ r', readTy P.structs (f + 1) (.struct iNew) (encFields (wsO ++ wsA) ++ 0 :: r') = some (.strct fs'', r')) ∧
       toWFields P sdNew.fields fs'' = .ok wsN := by
   obtain ⟨wsO, hwO, hwA, hm, hdO, hdA, hwtO⟩ := E.parts
-  have hhop := hopKU_mixed P E.hP E.hv iOld sdOld (proj mask vs) wsO f E.hO E.hkO hwtO hwO hdO wsN hm
   obtain ⟨hndO, _, _, _⟩ := E.hP iOld sdOld E.hO
   have hih := IHu_of_IHs P (readTy P.structs f) (readTy_append P.structs f) f sdOld.fields (proj mask vs)
     (rtFields P E.hP E.hv (proj mask vs) sdOld.fields f)
   have hkn := written_known P (readTy P.structs f) f sdOld.fields (proj mask vs) wsO hwO hdO hih hwtO [] (by simpa using hndO)
   simp only [List.nil_append] at hkn
   have hperm := mixed_perm (readTy P.structs f) sdOld.fields wsO wsN hm hkn
+  have hhop := hopKU_mixed P E.hP E.hv iOld sdOld wsN (proj mask vs) wsO f E.hO (union_split E hperm) hwtO hwO hdO hm
   have hwO' : toWFields P (proj mask sdNew.fields) (proj mask vs) = .ok wsO := by rw [E.hproj]; exact hwO
   obtain ⟨fs'', hlen, hrd, hpO, hpA⟩ := new_reads_rewritten P E.hP E.hv iNew sdNew mask vs wsO (unk sdOld.fields wsN) f
     E.hN E.hl E.hadd E.hwt hwO' hwA hdO hdA
@@ -267,13 +308,14 @@ theorem chain_core (E : Evo P iOld iNew sdOld sdNew mask vs wsN f) :
   have hm1 : Mixed sdOld.fields wsO' (wsO' ++ wsA) := mixed_append sdOld.fields wsA hfacts wsO'
   have hunk1 : unk sdOld.fields (wsO' ++ wsA) = wsA :=
     unk_append_split (readTy P.structs f) sdOld.fields wsO' wsA hkn (fun x hx => (hfacts x hx).2.1)
-  have hK1 := hopKU_mixed P E.hP E.hv iOld sdOld (proj mask vs) wsO' f E.hO E.hkO hwtO hwO hdO (wsO' ++ wsA) hm1
+  have hK1 := hopKU_mixed P E.hP E.hv iOld sdOld (wsO' ++ wsA) (proj mask vs) wsO' f E.hO
+    (by rw [hunk1]; exact union_split E hperm) hwtO hwO hdO hm1
   rw [hunk1] at hK1
   obtain ⟨fs0, htw0, hrd0⟩ := struct_read_mixed P E.hP E.hv iNew sdNew vs wsN f E.hN E.hwt E.hw E.hd
   have hN0 : hopStd P f iNew (encFields wsN ++ [0]) = some (encFields wsN ++ [0]) :=
-    hopStd_read P f iNew sdNew _ fs0 wsN E.hN E.hkN (hrd0 wsN [] (Mixed.refl _ wsN)) htw0
+    hopStd_read P E.hP f iNew sdNew _ fs0 wsN E.hN (fun h => E.hcount (Or.inr h)) (hrd0 wsN [] (Mixed.refl _ wsN)) htw0
   have hN1 : hopStd P f iNew (encFields (wsO' ++ wsA) ++ [0]) = some (encFields wsN ++ [0]) :=
-    hopStd_read P f iNew sdNew _ fs'' wsN E.hN E.hkN (hrd1 []) htw1
+    hopStd_read P E.hP f iNew sdNew _ fs'' wsN E.hN (fun h => E.hcount (Or.inr h)) (hrd1 []) htw1
   intro hops
   induction hops with
   | nil => intro b _; rfl
@@ -328,7 +370,7 @@ theorem ku_no_unknown_core (hP : SchemaOK P) (hv : P.validateSet = false) (i : N
 theorem writeStructKU_nil (P : Prog) (i : Nat) (sd : StructDef) (fs : List GoVal) (hsd : P.structs[i]? = some sd) :
     writeStructKU P sd fs [] = Std.write P i (.strct fs) := by
   have : P.struct? i = some sd := hsd
-  simp only [writeStructKU, Std.write, toW, this]
+  simp only [writeStructKU, Std.write, toW, this, carrying, List.isEmpty_nil, Bool.not_true, Bool.and_false, Bool.not_false, Bool.and_true]
   split
   · rfl
   · cases toWFields P sd.fields fs <;> simp [writeFieldsKU, write, writeR, writeLoop] <;> rfl
